@@ -42,6 +42,17 @@ CLAIMED = {
             "parser (compiled from /repo/crates/test/src/config.rs) must return the spec's configuration or error.",
             "Trusted: TLC, the toml crate, the rendering of abstract line kinds to concrete text.",
             "5 C34"),
+    "C24": ("model_checking",
+            "TLA+ spec Realloc.tla (allocator contract + host view) model-checked with a branch-level model of cabi_realloc/"
+            "Cleanup; TLC-generated and random request histories executed on the real code over a tracking arena allocator; "
+            "every log trace-validated by TLC (Trace_Realloc.tla)",
+            "TLC explores all histories of 3 (thorough 4) requests under every well-behaved allocator choice and checks "
+            "non-null/aligned/contents-preserved/zero-size/no-overlap and the GlobalAlloc layout contract; the real "
+            "cabi_realloc and Cleanup then run those histories (x2 scales) plus 1500+ random ones (align up to 2^16, size up "
+            "to 2^20); each entry call, return and underlying alloc/realloc/dealloc is an event the spec must accept.",
+            "Trusted: TLC; the arena allocator of harness/rtalloc. cabi_realloc is compiled natively from its source text "
+            "extracted at build time (it is cfg'd out on linux-gnu).",
+            "5 C24"),
 }
 
 PENDING_REASON = "check not built yet in this session (planned, see DESIGN.md section 5); not claimed until it runs"
